@@ -110,7 +110,7 @@ BUS_PROPS = {
     'C07': dict(oracle=lambda F, w: oracle.c07(F),
                 profiles=[('topo', 5), ('topo_traffic', 4), ('topo_redispatch', 3), ('topo_small_history', 3), ('multi_fwd', 2)]),
     'C08': dict(oracle=lambda F, w: oracle.c08(F), watch=completion_watch,
-                profiles=[('topo', 4), ('topo_traffic', 2), ('multi_fwd', 3), ('nested', 2), ('redispatch', 2), ('clean', 1), ('errors', 3), ('timeouts', 3), ('timeouts_clean', 1)]),
+                profiles=[('topo', 4), ('topo_traffic', 2), ('multi_fwd', 3), ('nested', 2), ('redispatch', 2), ('clean', 1), ('errors', 3), ('timeouts', 3), ('timeouts_clean', 1), ('late_child', 3)]),
     'C09': dict(oracle=lambda F, w: oracle.c09(F),
                 profiles=[('lineage', 4), ('redispatch', 2), ('parallel', 2), ('multi_fwd', 2), ('clean', 1)]),
     'C10': dict(oracle=lambda F, w: oracle.c10(F),
